@@ -2,7 +2,7 @@ import NetVerif.Gen.C40
 /-!
 Model of `html/escape.go`: `escape`/`EscapeString`, `unescapeEntity`, `unescape`/`UnescapeString`
 (complete: numeric references incl. the Windows-1252 table, named references through the
-regenerated `entity`/`entity2` maps, the attribute-mode exceptions and the longest-prefix fallback).
+regenerated `entity`/`entity2` maps, the attr-mode exceptions and the longest-prefix fallback).
 
 Bytes are `Nat < 256`, strings `List Nat`, runes `Nat`.
 Not modelled: the in-place reuse of the input slice by `unescape` (value semantics only).
@@ -127,39 +127,72 @@ def prefixFallback (name : List Nat) : Nat → EntRes
     else notEntity
 
 /-- Named branch; `s` is the input after `&`. -/
-def namedRef (s : List Nat) (attribute : Bool) : EntRes :=
+def namedRef (s : List Nat) (attr : Bool) : EntRes :=
   let name := scanName s
   if name.isEmpty then notEntity
-  else if attribute ∧ name.getLast? ≠ some 59 ∧ (s.drop name.length).head? = some 61 then notEntity
+  else if attr ∧ name.getLast? ≠ some 59 ∧ (s.drop name.length).head? = some 61 then notEntity
   else
     let x := entityLookup name
     if x ≠ 0 then (x, 0, name.length + 1) else
     let y := entity2Lookup name
     if y.1 ≠ 0 then (y.1, y.2, name.length + 1) else
-    if ¬ attribute then
+    if ¬ attr then
       prefixFallback name (min (name.length - 1) longestEntityWithoutSemicolon)
     else notEntity
 
 /-- `unescapeEntity(s, attribute)` where `s = '&' :: rest`. -/
-def unescapeEntity (rest : List Nat) (attribute : Bool) : EntRes :=
+def unescapeEntity (rest : List Nat) (attr : Bool) : EntRes :=
   match rest with
   | [] => notEntity
   | 35 :: t => numericRef t
-  | _ => namedRef rest attribute
+  | _ => namedRef rest attr
 
 /-! ### unescape -/
 
 /-- The loop of `unescape` (fuel = remaining length; every step consumes at least one byte). -/
-def unescapeAux (attribute : Bool) : Nat → List Nat → List Nat
+def unescapeAux (attr : Bool) : Nat → List Nat → List Nat
   | 0, _ => []
   | _ + 1, [] => []
   | fuel + 1, c :: rest =>
-    if c ≠ 38 then c :: unescapeAux attribute fuel rest else
-    let (r1, r2, n) := unescapeEntity rest attribute
-    if n = 1 ∧ r1 = 38 then 38 :: unescapeAux attribute fuel rest
-    else utf8Enc r1 ++ (if r2 ≠ 0 then utf8Enc r2 else []) ++ unescapeAux attribute fuel (rest.drop (n - 1))
+    if c ≠ 38 then c :: unescapeAux attr fuel rest else
+    let (r1, r2, n) := unescapeEntity rest attr
+    if n = 1 ∧ r1 = 38 then 38 :: unescapeAux attr fuel rest
+    else utf8Enc r1 ++ (if r2 ≠ 0 then utf8Enc r2 else []) ++ unescapeAux attr fuel (rest.drop (n - 1))
 
 /-- `unescape(b, attribute)` (and `UnescapeString` = `unescape(b, false)`). -/
-def unescape (b : List Nat) (attribute : Bool) : List Nat := unescapeAux attribute b.length b
+def unescape (b : List Nat) (attr : Bool) : List Nat := unescapeAux attr b.length b
+
+/-! ### Comments: `escapeComment` and the tokenizer's `Text()` pipeline for comment data -/
+
+/-- `escapeComment(w, s)`: every `&` becomes `&amp;`; `>` becomes `&gt;` iff it is the first byte or
+follows `!` or `-`. `prev` is the previous input byte (`none` at the start). -/
+def escapeCommentAux : Option Nat → List Nat → List Nat
+  | _, [] => []
+  | prev, c :: s =>
+    (if c = 38 then ampE
+     else if c = 62 ∧ (prev = none ∨ prev = some 33 ∨ prev = some 45) then gtE
+     else [c]) ++ escapeCommentAux (some c) s
+
+def escapeComment (s : List Nat) : List Nat := escapeCommentAux none s
+
+/-- `convertNewlines`: every CR becomes LF and an LF directly after a CR is dropped
+(so CR LF and lone CR both become one LF). `prevCR`: the previous input byte was a CR. -/
+def convertNewlinesAux : Bool → List Nat → List Nat
+  | _, [] => []
+  | prevCR, c :: s =>
+    if c = 13 then 10 :: convertNewlinesAux true s
+    else if c = 10 ∧ prevCR = true then convertNewlinesAux false s
+    else c :: convertNewlinesAux false s
+
+def convertNewlines (s : List Nat) : List Nat := convertNewlinesAux false s
+
+/-- `bytes.Replace(s, nul, replacement, -1)`: NUL becomes U+FFFD. -/
+def nulToReplacement : List Nat → List Nat
+  | [] => []
+  | c :: s => (if c = 0 then [239, 191, 189] else [c]) ++ nulToReplacement s
+
+/-- `Tokenizer.Text()` for a comment token whose raw data span is `s`
+(`convertNewlines`, NUL replacement, `unescape(s, false)`). -/
+def commentText (s : List Nat) : List Nat := unescape (nulToReplacement (convertNewlines s)) false
 
 end NetVerif.Model.HtmlEscape
